@@ -2,6 +2,7 @@
 Require Import Pearl.Base.Prelude Pearl.Storage.Model Pearl.Storage.Spec Pearl.Storage.Inv Pearl.Storage.InvProofs
                Pearl.Storage.Theorems Pearl.Storage.WorkerProofs.
 
+Require Pearl.Generated.Facts.
 (* In every state of an open storage, EVERY operation of the model -- data operations, direct lifecycle
    calls whether applicable or not, background create/close/restore requests whether applicable or not,
    force_update with any predicate, free_excess, dump completion -- leaves the worker alive; only the end
@@ -69,6 +70,13 @@ Theorem C13_close_returns :
     s_open s = true -> snd (step_q K cfg s OClose) = RUnit /\ s_open (fst (step_q K cfg s OClose)) = false.
 Proof. exact close_returns. Qed.
 
+(* ---- structural facts re-extracted from the Rust source on every run (tools/extract_src.py, Generated/Facts.v):
+   the orderings inside the code that the models used above assume. A change of the code that invalidates one turns
+   the generated boolean into `false` and this file no longer compiles. ---- *)
+(* Storage/Model.v worker: a failed request leaves the worker alive *)
+Theorem C13_source_background_failures_logged : Pearl.Generated.Facts.BACKGROUND_FAILURES_ARE_LOGGED = true.
+Proof. reflexivity. Qed.
+
 Print Assumptions C13_worker_stays_alive.
 Print Assumptions C13_inapplicable_request_is_harmless.
 Print Assumptions C13_inapplicable_request_changes_nothing.
@@ -77,3 +85,4 @@ Print Assumptions C13_alive_after_every_history.
 Print Assumptions C13_rotation_happens.
 Print Assumptions C13_dumps_complete.
 Print Assumptions C13_close_returns.
+Print Assumptions C13_source_background_failures_logged.
